@@ -113,6 +113,14 @@ func (r *FnRun) bumpTop(st *State, results []Val) {
 	nt := r.fresh("top", SInt)
 	r.assume(Ge(nt, st.top))
 	st.top = nt
+	for _, v := range results {
+		r.boundedBy(nt, v)
+	}
+}
+
+// boundedBy assumes that every reference inside v is at most nt.
+func (r *FnRun) boundedBy(nt Term, v0 Val) {
+	results := []Val{v0}
 	var visit func(v Val)
 	visit = func(v Val) {
 		switch b := v.(type) {
@@ -193,6 +201,25 @@ func (r *FnRun) execCall(fr *Frame, st *State, c *ssa.CallCommon, instr ssa.Inst
 		return
 	}
 	if b, ok := c.Value.(*ssa.Builtin); ok {
+		if b.Name() == "append" && r.contents && !r.bv {
+			// with contents tracked, the two outcomes of append (in place /
+			// reallocated) are explored as two paths
+			args := r.args(fr, st, c)
+			if s, ok := args[0].(SliceVal); ok {
+				st2, fr2 := st.clone(), fr.fork()
+				r.push()
+				r.cur = st
+				st.path = append(st.path, where+":append-in-place")
+				k(fr, st, []Val{r.appendCase(st, s, args[1], where, true)})
+				r.pop()
+				r.push()
+				r.cur = st2
+				st2.path = append(st2.path, where+":append-realloc")
+				k(fr2, st2, []Val{r.appendCase(st2, s, args[1], where, false)})
+				r.pop()
+				return
+			}
+		}
 		res := r.builtin(fr, st, b, c, where)
 		k(fr, st, res)
 		return
